@@ -94,10 +94,15 @@ pub fn run(inp: &mut dyn BufRead, out: &mut dyn Write) {
             continue;
         }
         let bytes = parse_bytes(t[1]);
+        // `<kind>` or `<kind>d`: d = TERM=dumb (an unsupported terminal: the same non-interactive path, reached by another test)
+        let (kind, term) = match t[0].strip_suffix('d') {
+            Some(k) => (k, "dumb"),
+            None => (t[0], "xterm"),
+        };
         let mut ch = Command::new(&me)
             .arg("direct-child")
-            .arg(t[0])
-            .env("TERM", "xterm")
+            .arg(kind)
+            .env("TERM", term)
             .stdin(Stdio::piped())
             .stdout(Stdio::piped())
             .stderr(Stdio::null())
